@@ -275,6 +275,31 @@ theorem sis_arrival_point_matters :
   have h4 := Real.log_injOn_pos (by norm_num : (1 + 1 : ℝ) ∈ Set.Ioi 0) (by norm_num : (3 + 1 : ℝ) ∈ Set.Ioi 0) this
   norm_num at h4
 
+/-- Command histories that net to nothing: if the commands issued before a step leave both flags as they were
+    (`[on, off]`, `[all on, prediction off, correction off]`, … on a filter that was not skipping), the step is
+    exactly the step of a filter that received no command — predicted set, corrected set, resampling, flags. -/
+theorem sis_commands_netting_to_nothing (rs : PSet π ℝ → PSet π ℝ → ℝ → PSet π ℝ × List Int)
+    (cfg : SisCfg ℝ) (s : SisState π ℝ) (ev : SisEvent π ℝ)
+    (h : ev.cmds.foldl applyCmd (s.skipPred, s.skipCor) = (s.skipPred, s.skipCor)) :
+    sisStepWith rs cfg s ev = sisStepWith rs cfg s { ev with cmds := [] } := by
+  have hf : sisFlags s ev = sisFlags s { ev with cmds := [] } := by
+    simp only [sisFlags, h, List.foldl_nil]
+  have hc : sisFlagsCor s ev = sisFlagsCor s { ev with cmds := [] } := by
+    simp only [sisFlagsCor, hf]
+  have he : sisFlagsEnd s ev = sisFlagsEnd s { ev with cmds := [] } := by
+    simp only [sisFlagsEnd, hc]
+  have hp : sisPredict s ev = sisPredict s { ev with cmds := [] } := by
+    simp only [sisPredict, hf]
+  have hcor : sisCorrect cfg s ev = sisCorrect cfg s { ev with cmds := [] } := by
+    simp only [sisCorrect, hc, hp]
+  simp only [sisStepWith, he, hp, hcor]
+
+/-- non-vacuity: on a filter that is not skipping, `skip("all", true); skip("prediction", false);
+    skip("correction", false)` nets to nothing, and so does `on, off` of either flag -/
+example : [SkipCmd.allOn, .predOff, .corOff].foldl applyCmd (false, false) = (false, false) ∧
+    [SkipCmd.corOn, .corOff].foldl applyCmd (false, false) = (false, false) ∧
+    [SkipCmd.predOn, .other, .allOff].foldl applyCmd (false, false) = (false, false) := ⟨rfl, rfl, rfl⟩
+
 /-- a command `ParticleFilter::skip` does not know is refused and changes nothing; the six step-level
     commands are accepted -/
 theorem sis_unknown_command_ignored (f : Bool × Bool) :
